@@ -1249,6 +1249,37 @@ class Machine:
                 if callee.endswith('is_match'):
                     return self.predicate(('regex', sj, rx), g, memo, BOOL(True), BOOL(False))
                 return self.predicate(('regex', sj, rx), g, memo, ENUM(OPT, 1, [TOP({sj})]), ENUM(OPT, 0, []))
+        # ---- Option combinators with a closure: same meaning as the match they replace ----
+        mo = re.search(r'option::Option::<.{0,80}?>::(and_then|map|unwrap_or_else|or_else|unwrap_or)(::<|$)', callee)
+        if mo and a0[0] == 'enum' and a0[1].endswith('Option') and len(argv) >= 2:
+            kind = mo.group(1)
+            is_some = a0[2] == 1
+            payload = a0[3][0] if (is_some and a0[3]) else T0
+
+            def call_closure(fv, args):
+                f = self.deref_all(fv, g) if fv[0] in ('vref', 'ref') else fv
+                if f[0] == 'vref':
+                    f = f[1]
+                if f[0] == 'closure' and f[1] in self.BODIES:
+                    by_ref = self.BODIES[f[1]]['mir']['locals'][1].startswith('&')
+                    return self._descend(path, c, f[1], [VREF(f) if by_ref else f] + args, g, memo)
+                if f[0] == 'fn' and f[1] in self.BODIES:
+                    return self._descend(path, c, f[1], args, g, memo)
+                return None
+            if kind == 'unwrap_or':
+                return [((payload if is_some else argv[1]), g, memo)]
+            if kind in ('and_then', 'map'):
+                if not is_some:
+                    return [(ENUM(OPT, 0, []), g, memo)]
+                outs = call_closure(argv[1], [payload])
+                if outs is not None:
+                    return outs if kind == 'and_then' else [(ENUM(OPT, 1, [rv]), g2, m2) for (rv, g2, m2) in outs]
+            if kind in ('unwrap_or_else', 'or_else'):
+                if is_some:
+                    return [((payload if kind == 'unwrap_or_else' else a0), g, memo)]
+                outs = call_closure(argv[1], [])
+                if outs is not None:
+                    return outs
         # ---- indirect calls through boxed functions: resolve by the value carried ----
         if callee.endswith('FnMut>::call_mut') or callee.endswith('Fn>::call') or callee.endswith('FnOnce>::call_once') or callee.startswith('<indirect') \
                 or re.search(r'ops::Fn(Mut|Once)?<', callee):
